@@ -443,7 +443,7 @@ fn run_case(c: &Case) -> Result<(bool, bool, bool), Failure> {
 			mb.add_clock(true, ticks as u64, ticks.fract());
 			let info = mb.build();
 			if let H::Stream(_, log, id) = &h {
-				streamctl::wait_quiescent(&[(*id, log.clone())], Duration::from_secs(5));
+				streamctl::wait_quiescent_or_flag(&[(*id, log.clone())], Duration::from_secs(20));
 				streamctl::set_callback_active(true);
 			}
 			let mut out = vec![Frame::new(9.0, 9.0); c.chunk];
